@@ -499,6 +499,57 @@ func main() {
 			}
 		}
 	}
+	// 7b: reads AFTER a failed read: for every pair (A fails after k fresh bytes, then B is read) the value B
+	// returns must not depend on what the priming read left in the scratch buffer either.
+	big := sreader{"String>4096", 4 + 5000, func(r *iohelp.ErrorReader) string {
+		s := iohelp.ReadString(r)
+		return fmt.Sprintf("len=%d", len(s))
+	}}
+	firsts := append(append([]sreader{}, srs...), big)
+	bigFresh := append([]byte{0x88, 0x13, 0x00, 0x00}, bytes.Repeat([]byte{0x41}, 5000)...) // announces 5000 bytes
+	for _, a := range firsts {
+		ks := []int{0, 1, a.w / 2, a.w - 1}
+		if a.w > 16 {
+			ks = []int{0, 3, 4, 5, 100, 4095 + 4, 4096 + 4, 4999 + 4}
+		}
+		for _, k := range ks {
+			if k < 0 || k >= a.w {
+				continue
+			}
+			for _, b := range srs {
+				states++
+				var results []string
+				c := map[string]any{"first_read": "Read" + a.name, "fresh_bytes_before_failure": k, "second_read": "Read" + b.name}
+				for _, pr := range primings {
+					src := fresh
+					if a.w > 16 {
+						src = bigFresh
+					}
+					data := append(append([]byte{}, pr...), src[:k]...)
+					fr := &faultReader{data: data, err: io.EOF, style: 0}
+					er := iohelp.NewErrorReader(fr)
+					_ = iohelp.ReadUint64(er)
+					var res string
+					pk, what := catch(func() { _ = a.read(er); res = b.read(er) })
+					trans += 2
+					if pk {
+						run.Report("C20|stream-fail|panic-after-failure|"+a.name+">"+b.name, "panicked reading after a failed read: "+what, c)
+						continue
+					}
+					if er.Err == nil {
+						run.Report("C20|stream-fail|no-latch|"+a.name, fmt.Sprintf("Read%s got %d of %d bytes, ErrorReader.Err is nil after a following Read%s", a.name, k, a.w, b.name), c)
+					}
+					results = append(results, res)
+				}
+				for _, res := range results[1:] {
+					if res != results[0] {
+						run.Report("C20|stream-fail|stale-after-failure|"+a.name+">"+b.name, fmt.Sprintf("after Read%s failed (%d of %d fresh bytes), the next Read%s returned %v depending on what an earlier successful read left in the scratch buffer", a.name, k, a.w, b.name, results), c)
+						break
+					}
+				}
+			}
+		}
+	}
 	run.Sample(map[string]any{"stream_failure": "for each Read*: every k<width fresh bytes then {EOF,ErrUnexpectedEOF,custom} delivered as (0,err) or (n,err), under 5 different scratch primings"})
 
 	// 8: writer failures are latched
